@@ -46,6 +46,16 @@ CLAIMS = {
                 "regex clean-up steps are oracle-backed.",
         "technique": "Lean 4 proof over executable model + differential correspondence with the Rust implementation",
     },
+    "C10": {
+        "text": "Machine-checked Lean theorems for all match lists / texts: grouping equalities for the six behaviours, tilings, order, "
+                "boundaries_subset_partial, literal_matches_chain, string_matches_aligned (incl. the empty pattern), char_eq_string, "
+                "split_ordered, chain_refines, config_split_ordered. Model tied to src/config/split.rs by differential runs incl. "
+                "exhaustive multi-byte strings; two genuine defects found and repaired (F1, F15).",
+        "design_ref": "DESIGN.md §6 C10",
+        "note": "Trusted: Lean kernel + {propext, Classical.choice, Quot.sound}; regex and Unicode-script results are oracles (assumed "
+                "MatchesSane, validated at run time); character alignment of regex matches is inherited from the regex engine, not proved.",
+        "technique": "Lean 4 proof over executable model + differential correspondence with the Rust implementation",
+    },
     "C13": {
         "text": "Machine-checked Lean theorems (all sequences, all parameters, no bound) that Strip/Collapse/Pad/Truncate have exactly their "
                 "documented effect and never panic, over a model tied to src/config/processing.rs by differential runs on exhaustive small "
